@@ -9,6 +9,9 @@ seeds=("$@"); [ ${#seeds[@]} -eq 0 ] && seeds=($(ls seeded))
 fail=0
 for s in "${seeds[@]}"; do
   id=${s%%_*}
+  # the check that detects the seed is recorded in meta.json (usually the seed's own property)
+  det=$(python3 -c "import json,re,sys; m=json.load(open('/verif/seeded/$s/meta.json')); c=m.get('detection',{}).get('check',''); r=re.match(r'(C\\d\\d)', c); print(r.group(1) if r else '')" 2>/dev/null)
+  [ -n "$det" ] && id=$det
   p=seeded/$s/patch.diff
   if ! git -C /repo apply --check "$PWD/$p" 2>/dev/null; then
     if git -C /repo apply -3 "$PWD/$p" >/dev/null 2>&1 && [ -z "$(git -C /repo diff --name-only --diff-filter=U)" ]; then
